@@ -244,6 +244,9 @@ def check(s):
              "flatten_sample == ravel of the sample as float (one number per element)", s.loc(cls, "flatten_sample"), key="flatten-ravel")
     # ---------------------------------------------------------------- C14.9 conversions
     check_conversions(s)
+    from .util import fields_initialised
+    fields_initialised(s, "C14.4", [c for m_ in sorted(P.modules.values(), key=lambda m__: m__.name) if m_.name.startswith("lerax.space") for c in m_.classes.values()],
+                       necessary_for="every space construction yields a space")
     for r_, n in (("C14.1", 18), ("C14.2", 10), ("C14.3", 20), ("C14.4", 20), ("C14.5", 12), ("C14.6", 12), ("C14.7", 3), ("C14.8", 22), ("C14.9", 24)):
         s.floor(r_, n)
 
